@@ -78,6 +78,7 @@ void prim_q_x(const PrimC &c, vf::Obs &o);
 void prim_double(const PrimC &c, vf::Obs &o);
 void prim_ldouble(const PrimC &c, vf::Obs &o);
 void prim_long(const PrimC &c, vf::Obs &o);
+void prim_mpq(const PrimC &c, vf::Obs &o);
 template <class T, size_t MAXN, int KINDS>
 static void dispatch(const PrimC &c, vf::Obs &o) {
   size_t order = (size_t)std::min<i64>(std::max<i64>(c.order, 0), 5), n = (size_t)std::min<i64>(std::max<i64>(c.n, 0), (i64)MAXN);
@@ -100,10 +101,14 @@ void prim_ldouble(const PrimC &c, vf::Obs &o) { dispatch<long double, 3, 3>(c, o
 #if PART(4)
 void prim_long(const PrimC &c, vf::Obs &o) { dispatch<long, 3, 3>(c, o); }
 #endif
+#if PART(5)
+void prim_mpq(const PrimC &c, vf::Obs &o) { dispatch<mpq_class, 3, 3>(c, o); }
+#endif
 
 #if PART(0)
 static void check_prim(const PrimC &c, vf::Obs &o) {
-  if (c.type == 3 && c.n <= 3) prim_long(c, o);
+  if (c.type == 4 && c.n <= 3) prim_mpq(c, o);
+  else if (c.type == 3 && c.n <= 3) prim_long(c, o);
   else if (c.type == 1 && c.n <= 3) prim_double(c, o);
   else if (c.type == 2 && c.n <= 3) prim_ldouble(c, o);
   else if (c.kind == 0) prim_q_dx(c, o);
@@ -113,8 +118,8 @@ static void check_prim(const PrimC &c, vf::Obs &o) {
 int main(int argc, char **argv) {
   auto gen = rc::gen::exec([] {
     PrimC c;
-    c.type = *rc::gen::weightedElement<i64>({{6, 0}, {1, 1}, {1, 2}, {1, 3}});
-    GridOpt go; go.dyadic = c.type != 0; go.max_abs = c.type != 0 ? 8 : 64;
+    c.type = *rc::gen::weightedElement<i64>({{6, 0}, {1, 1}, {1, 2}, {1, 3}, {1, 4}});
+    GridOpt go; go.dyadic = c.type != 0 && c.type != 4; go.max_abs = (c.type != 0 && c.type != 4) ? 8 : 64;
     c.g = gen_grid(go);
     if (c.type == 3) {  // integer-like scalar: integer grid points of equal parity (integer midpoints), integer coefficients
       c.g.den = 1;
@@ -124,7 +129,7 @@ int main(int argc, char **argv) {
     c.kind = *rc::gen::weightedElement<i64>({{5, 0}, {5, 1}, {1, 2}});
     c.order = pick(0, c.kind == 1 ? 4 : 5);
     c.n = pick(0, (c.type != 0) ? 3 : 5);
-    CoefOpt co; co.dyadic = c.type != 0; co.zero_spline_pct = 2;
+    CoefOpt co; co.dyadic = c.type != 0 && c.type != 4; co.zero_spline_pct = 2;
     c.s = gen_spline(c.g.n(), (size_t)c.order, -1, co);
     if (c.type == 3) c.s.cden = 1;
     return c;
